@@ -453,6 +453,33 @@ def probe_registration(ctx):
                               [(t_.__name__, o_.verif_name) for t_, o_ in hist], t.__name__, st.verif_name, st.identifier(), st.default_extension(), why),
                           dict(kind="registration", history=[(t_.__name__, o_.verif_name) for t_, o_ in hist]))
     ctx.compare("registration histories: object under every key vs registerAll (st.reg)", cases, impl, ctx.driver.ask(reqs))
+    # the GLOBAL registry through the module-level helpers, with decoding done BEFORE a type is registered (a plug-in imported late):
+    # encode_state_data records an identifier, decode_state_data must find the decoder registered in the meantime
+    greg = S.state_types_registry()
+    saved = dict(greg.state_types_dictionary)
+    try:
+        S.decode_state_data(b"warm-up", "text")
+        S.decode_state_data(b"{}", "dictionary")
+        for t, o in [(T1, objs[0]), (T2, objs[2]), (T1, objs[3])]:
+            greg.register(t, o)
+            x = t(5)
+            b, mime, tid = S.encode_state_data(x)
+            try:
+                y = S.decode_state_data(b, tid)
+                ok, why = (y == x and type(y) is type(x)), "decodes to %r" % (getattr(y, "v", y),)
+            except Exception as ex:
+                ok, why = False, "decode_state_data raises: %s" % str(ex)[:120]
+            ctx.case("late-registration:%s:%s" % (t.__name__, o.verif_name))
+            if not ok:
+                ctx.violation("late-registration:%s" % o.verif_name, "global registry: values were decoded, THEN %s was registered with state type %s (identifier %r): "
+                              "encode_state_data records %r, decode_state_data(bytes, %r): %s" % (t.__name__, o.verif_name, o.identifier(), tid, tid, why),
+                              dict(kind="late-registration"))
+                break
+    finally:
+        for k in list(greg.state_types_dictionary):
+            if k not in saved:
+                del greg.state_types_dictionary[k]
+        greg.state_types_dictionary.update(saved)
 
 
 def gen_own_text(rng):
@@ -819,7 +846,7 @@ def replay(ctx, case):
                 both = [e for e, _ in r["writes"] if e in r["reads"]]
                 return None if r["default"] in both else "default extension %r not in writes∩reads" % r["default"]
         return None
-    if case["kind"] == "registration":
+    if case["kind"] in ("registration", "late-registration"):
         c2 = type(ctx)("C11", ctx.tier, ctx.seed)
         c2.driver.available = False
         probe_registration(c2)
